@@ -412,7 +412,9 @@ class Judge:
             return None
         if out == "bad-op":
             return None     # malformed / stale op: nothing was executed
-        if out.startswith("panic") or out == "poisoned":
+        if out == "poisoned":
+            return None     # already reported at the operation that panicked
+        if out.startswith("panic"):
             return "allocator panicked: " + out[:120]
         f = dict(x.split("=", 1) for x in out.split() if "=" in x)
         if "p" not in f or "chk" not in f or "os" not in f:
